@@ -1147,8 +1147,12 @@ func (rt *rtState) waitFor(t fataler, what string, cond func() bool) bool {
 		ok := rt.rescue()
 		if !known {
 			rt.leaked = !ok
-			t.Fatalf("DEADLOCK while waiting for %s (%s); %d Stop call(s) in flight while the archetype was running or cleaning up [signature %q]\nscenario:\n%s\ngoroutines:\n%s",
-				what, how, n, sigStopDeadlock, rt.sc, dump)
+			class := "not the shape of a listed finding"
+			if isCycle && n >= 2 {
+				class = fmt.Sprintf("signature %q", sigStopDeadlock)
+			}
+			t.Fatalf("DEADLOCK while waiting for %s (%s); %d Stop call(s) in flight while the archetype was running or cleaning up [%s]\nscenario:\n%s\ngoroutines:\n%s",
+				what, how, n, class, rt.sc, dump)
 			return false
 		}
 		rt.setAside = true
